@@ -11,6 +11,7 @@ EXPLANATION = (
     "properties but also from label additions, label removals and deleted nodes (backward data slice of every IndexOp tuple); "
     "(3) index updates never drop an error; (4) every Plan::IndexSeek construction is followed on every path by the re-applied property and label "
     "filters, and execute_index_seek leaves only through the index lookup or the fallback plan. Key equivalence classes (1 vs 1.0) are not decided."
+    " C15.6: lookup_index returns Some(results) only on a path where results was tested non-empty (an empty answer must be None so that the seek falls back to the scan)."
 )
 
 CREATE_INDEX = M.ENGINE + "::create_index"
